@@ -124,6 +124,73 @@ def replay_subprocess(path):
             "failures": [], "outcome": None}
 
 
+def _norm(x):
+    """Normal form of an outcome for comparison between the symbolic and the concrete run."""
+    if isinstance(x, dict):
+        if set(x) == {"num", "den"}:
+            return round(x["num"] / x["den"], 9)
+        return {str(k): _norm(v) for k, v in sorted(x.items(), key=lambda kv: str(kv[0]))}
+    if isinstance(x, (list, tuple)):
+        return [_norm(v) for v in x]
+    if isinstance(x, bool) or x is None or isinstance(x, str):
+        return x
+    if isinstance(x, int):
+        return x
+    if isinstance(x, float):
+        return int(x) if x == int(x) and abs(x) < 2 ** 62 else round(x, 9)
+    return str(x)
+
+
+def witness_batch(path):
+    """Fresh interpreter: replay sampled paths concretely on the unshimmed code and compare the observable outcome."""
+    from symex.engine import ConcreteEngine, ReplayDivergence
+    batch = json.load(open(path))
+    h = load_harness(batch["property"])
+    out = []
+    for case in batch["cases"]:
+        eng = ConcreteEngine(case["inputs"], case["choices"])
+        eng.known_ids = set(batch.get("known_ids", []))
+        res = {"job": case["job"], "ok": True, "why": None}
+        try:
+            eng.run(lambda e: h.run(e, case["params"]))
+            got = json.loads(json.dumps(eng.notes.get("outcome"), default=str))
+            exp = case["outcome"]
+            if _norm(got) != _norm(exp):
+                res.update(ok=False, why="outcome differs: symbolic %s / concrete %s" % (json.dumps(_norm(exp))[:300],
+                                                                                          json.dumps(_norm(got))[:300]))
+        except ReplayDivergence as e:
+            res.update(ok=False, why="diverged: %s" % e)
+        except BaseException as e:
+            res.update(ok=False, why="crashed: %s %s" % (type(e).__name__, e))
+        out.append(res)
+    return out
+
+
+def validate_witnesses(pid, jobs, per_job, known_ids, max_cases=40):
+    cases = []
+    for j, pj in enumerate(per_job):
+        for s in pj["samples"][:4]:
+            if "notes" in s and s["notes"].get("outcome") is not None:
+                cases.append({"job": jobs[j].get("name"), "params": jobs[j], "inputs": s["inputs_witness"],
+                              "choices": s["choices"], "outcome": json.loads(json.dumps(s["notes"]["outcome"], default=str))})
+    cases = cases[:max_cases]
+    if not cases:
+        return 0, []
+    os.makedirs(os.path.join(VERIF, "replays"), exist_ok=True)
+    path = os.path.join(VERIF, "replays", "%s-witnesses.json" % pid)
+    with open(path, "w") as f:
+        json.dump({"property": pid, "known_ids": list(known_ids), "cases": cases}, f, default=str)
+    env = dict(os.environ)
+    env["PYTHONPATH"] = REPO + os.pathsep + VERIF
+    p = subprocess.run([sys.executable, "-m", "symex.runner", "--witness-batch", path], cwd=VERIF, env=env,
+                       stdout=subprocess.PIPE, stderr=subprocess.PIPE, text=True, timeout=900)
+    for line in p.stdout.splitlines()[::-1]:
+        if line.startswith("WITNESS-RESULT "):
+            res = json.loads(line[len("WITNESS-RESULT "):])
+            return len(res), [r for r in res if not r["ok"]]
+    return len(cases), [{"job": "*", "ok": False, "why": "witness process failed: " + (p.stderr[-800:] or p.stdout[-800:])}]
+
+
 def write_replay(pid, params, finding, known_ids, kind="violation"):
     os.makedirs(os.path.join(VERIF, "replays"), exist_ok=True)
     rec = {"property": pid, "params": params, "inputs": finding["inputs"], "choices": finding["choices"],
@@ -194,8 +261,8 @@ def run_check(pid, tier, seed=0, workers=None, only_job=None):
                 pj["n_findings"] += res["n_findings"]
                 pj["known"].extend(res["known"])
                 pj["n_known"] += res["n_known"]
-                if len(pj["samples"]) < 3:
-                    pj["samples"].extend(res["samples"][:1])
+                if len(pj["samples"]) < 4:
+                    pj["samples"].extend(res["samples"][:2])
                 pj["functions"].update(res["functions"])
                 pj["wall"] += res["wall"]
                 pj["tasks"] += 1
@@ -253,6 +320,9 @@ def run_check(pid, tier, seed=0, workers=None, only_job=None):
         known_lines.append("KNOWN-FINDING: property=%s %s [%s] (job %s; e.g. %s)"
                            % (pid, meta.get("what", k["what"]), fid, jn, _short(k["inputs"])))
 
+    n_wit, bad_wit = (0, [])
+    if not violations and not os.environ.get("VERIF_NO_WITNESS"):
+        n_wit, bad_wit = validate_witnesses(pid, jobs, per_job, known_ids)
     vacuous = [jobs[j].get("name") for j, pj in enumerate(per_job)
                if pj["stats"].asserts_reached == 0 and not any(jobs[j].get("name") == e[0] for e in errors)]
     complete = not capped and not errors
@@ -270,6 +340,10 @@ def run_check(pid, tier, seed=0, workers=None, only_job=None):
     if capped and status == 0:
         status = 2
         msgs.append("wall-clock cap of %.0fs hit before the frontier emptied" % cap_s)
+    if bad_wit and status == 0:
+        status = 2
+        msgs.append("encoding validation failed: %d of %d sampled paths behave differently on the unshimmed code: %s"
+                    % (len(bad_wit), n_wit, "; ".join("%s: %s" % (b["job"], b["why"]) for b in bad_wit[:3])))
     if vacuous and status == 0:
         status = 2
         msgs.append("vacuous job(s), assertion never reached: %s" % vacuous)
@@ -279,6 +353,8 @@ def run_check(pid, tier, seed=0, workers=None, only_job=None):
     wall = time.perf_counter() - t_start
     evidence = build_evidence(pid, tier, seed, h, jobs, per_job, total, wall, complete, violations,
                               known_reproduced, nonrepro, errors, capped, workers)
+    evidence["coverage"]["witness_paths_replayed_on_unshimmed_code"] = n_wit
+    evidence["coverage"]["witness_paths_diverging"] = len(bad_wit)
     evdir = os.environ.get("VERIF_EVIDENCE_DIR") or os.path.join(VERIF, "evidence")
     os.makedirs(evdir, exist_ok=True)
     with open(os.path.join(evdir, "%s.json" % pid), "w") as f:
@@ -318,7 +394,9 @@ def build_evidence(pid, tier, seed, h, jobs, per_job, total, wall, complete, vio
     samples = []
     for j, pj in enumerate(per_job):
         for s in pj["samples"][:1]:
-            samples.append({"job": jobs[j].get("name"), "params": jobs[j], **s})
+            s2 = dict(s)
+            s2["choices"] = s2.get("choices", [])[:30]
+            samples.append({"job": jobs[j].get("name"), "params": jobs[j], **s2})
     nontrivial = sum(1 for pj in per_job for _ in [0]) and total.forks + sum(
         1 for pj in per_job if pj["stats"].paths > 0)
     cov = {
@@ -371,6 +449,9 @@ def _z3v():
 
 
 def main(argv):
+    if len(argv) >= 2 and argv[0] == "--witness-batch":
+        print("WITNESS-RESULT " + json.dumps(witness_batch(argv[1]), default=str))
+        return 0
     if len(argv) >= 2 and argv[0] == "--replay-json":
         try:
             res = replay_file(argv[1])
